@@ -116,7 +116,8 @@ def p_macro_nesting(text):
     """More than 1000 macro expansions are active at once: a chain of > 1000 object-like macros each
     defined as the next one, or > 1000 macro invocations nested in each other's arguments."""
     objs = dict(re.findall(r"^[ \t]*#[ \t]*define[ \t]+(%s)[ \t]+(%s)[ \t]*$" % (ID, ID), text, re.M))
-    if len(objs) > 1000:
+    lim = MACRO_DEPTH[BUILD_KIND[0]]
+    if len(objs) > lim:
         targets = set(objs.values())
         for k in [k for k in objs if k not in targets][:3] or list(objs)[:1]:
             n, cur, seen = 0, k, set()
@@ -124,10 +125,10 @@ def p_macro_nesting(text):
                 seen.add(cur)
                 cur = objs[cur]
                 n += 1
-            if n > 1000:
+            if n > lim:
                 return True
     for name in fn_macros(text):
-        if max_adjacent(re.compile(r"\b%s\s*\(\s*" % re.escape(name)), text) > 1000:
+        if max_adjacent(re.compile(r"\b%s\s*\(\s*" % re.escape(name)), text) > lim:
             return True
     return False
 
@@ -156,11 +157,13 @@ def p_xor(text):
 
 
 def p_template_depth(text):
-    """Template-ids nested more than 100 levels deep."""
-    return max_adjacent(re.compile(r"(?<!\w)%s[ \t]*<[ \t]*" % ID), text) > 100
+    """Template-ids nested more than 100 levels deep (45 under the sanitizer build)."""
+    return max_adjacent(re.compile(r"(?<!\w)%s[ \t]*<[ \t]*" % ID), text) > TEMPLATE_DEPTH[BUILD_KIND[0]]
 
 
 EXPR_DEPTH = {"hooked": 50000, "asan": 4000}     # the sanitizer build has larger stack frames
+TEMPLATE_DEPTH = {"hooked": 100, "asan": 45}
+MACRO_DEPTH = {"hooked": 1000, "asan": 300}
 BUILD_KIND = ["hooked"]
 
 
@@ -198,12 +201,18 @@ CLASSES = [
 ]
 
 
-def classes_of(text, mode="pf"):
+def classes_of(text, mode="pf", kind=None):
     """Finding classes of an input.  A -D value ends up in `#if VAL` of the probe source, so for
     that feeding mode the predicates look at it as a controlling expression."""
     if mode == "D":
         text = "#if " + text.replace("\n", " ") + "\n"
-    return [cid for cid, pred in CLASSES if pred(text)]
+    old = BUILD_KIND[0]
+    if kind:
+        BUILD_KIND[0] = kind
+    try:
+        return [cid for cid, pred in CLASSES if pred(text)]
+    finally:
+        BUILD_KIND[0] = old
 
 
 # ---------------------------------------------------------------------------------------
@@ -388,6 +397,101 @@ def edge_inputs(tier):
 
 
 # ---------------------------------------------------------------------------------------
+# LENGTH: the dimension the mode models do not have.  Every construct whose text the code copies into
+# a fixed-size buffer, hands to sscanf / strtol / strtod / atoi / pdtoa, or cuts with computed
+# substr() positions (grep of src/cppparser, src/interrogate: char macro[64] + sscanf %63[^"] in
+# handle_pragma_directive; strtol base 16 / 2 / 8 / 10 and pstrtod in get_number; pdtoa into
+# char[32] / char[128] in CPPExpression::output / CPPToken::output_code; atoi(SOURCE_DATE_EPOCH);
+# scan_raw delimiter; CPPManifest / extract_args / read_command_file substr arithmetic) is
+# generated at the lengths {0, 1, limit-1, limit, limit+1, 4*limit, 100000} for its limit(s).
+def lengths(*limits):
+    out = {0, 1, 100000}
+    for lim in limits:
+        out |= {lim - 1, lim, lim + 1, 4 * lim}
+    return sorted(x for x in out if x >= 0)
+
+
+def length_inputs():
+    """(name, text, modes)"""
+    L = []
+
+    def fam(name, limits, gen, modes=("pf", "pfE", "ig")):
+        for n in lengths(*limits):
+            L.append(("len:%s:%d" % (name, n), gen(n), modes))
+    q = '"'
+    # #pragma push_macro / pop_macro: char macro[64], sscanf %63[^"]
+    fam("pragma-push_macro-name", (64,), lambda n: '#pragma push_macro("%s")\nint x;\n' % ("m" * n))
+    fam("pragma-pop_macro-name", (64,), lambda n: '#pragma pop_macro("%s")\nint x;\n' % ("m" * n))
+    fam("pragma-push-define-pop", (64,), lambda n: '#define {0} 1\n#pragma push_macro("{0}")\n#undef {0}\n#define {0} 2\n#pragma pop_macro("{0}")\nint x = {0};\n'.format("m" * max(n, 1)))
+    fam("pragma-push_macro-spaces", (64,), lambda n: "#pragma push_macro%s(%s\"m\"%s)\nint x;\n" % (" " * n, " " * n, " " * n))
+    fam("pragma-push_macro-unterminated", (64,), lambda n: '#pragma push_macro("%s\nint x;\n' % ("m" * n))
+    fam("pragma-word", (64,), lambda n: "#pragma %s\nint x;\n" % ("p" * n))
+    fam("pragma-once-trailing", (64,), lambda n: "#pragma once%s\nint x;\n" % (" " * n))
+    # names
+    fam("macro-name", (64, 256), lambda n: "#define %s 1\nint x = %s;\n#ifdef %s\n#endif\n#undef %s\n" % (("M" * max(n, 1),) * 4))
+    fam("macro-parameter-name", (64,), lambda n: "#define f(%s) %s\nint x = f(1);\n" % (("p" * n,) * 2))
+    fam("macro-parameter-count", (64, 256), lambda n: "#define f(%s) 1\nint x = f(%s);\n" % (",".join("p%d" % i for i in range(n)), ",".join("1" for i in range(n))))
+    fam("macro-argument", (64, 4096), lambda n: "#define f(x) x\nconst char *s = f(\"%s\");\n" % ("a" * n))
+    fam("macro-stringify-argument", (64, 4096), lambda n: "#define f(x) #x\nconst char *s = f(%s);\n" % ("a" * n))
+    fam("macro-paste", (64,), lambda n: "#define f(x,y) x##y\nint f(%s,%s);\n" % ("a" * max(n, 1), "b" * n))
+    fam("identifier", (64, 256, 4096), lambda n: "int %s;\n" % ("i" * max(n, 1)))
+    fam("scoped-identifier", (64, 1000), lambda n: "namespace n { int v; }\nint y = " + "n::" * min(n, 4000) + "v;\n")
+    fam("directive-name", (16, 64), lambda n: "#%s\nint x;\n" % ("d" * n))
+    fam("if-identifier", (64,), lambda n: "#if %s\n#endif\n#if defined(%s)\n#endif\n" % (("U" * max(n, 1),) * 2))
+    # numbers: strtol / pstrtod / pdtoa
+    fam("decimal-digits", (10, 19, 20, 64), lambda n: "int x = %s;\n#if %s\n#endif\n" % (("9" * max(n, 1),) * 2))
+    fam("decimal-with-separators", (10, 20), lambda n: "int x = 1%s;\n" % ("'1" * n))
+    fam("hex-digits", (8, 16, 64), lambda n: "int x = 0x%s;\n#if 0x%s\n#endif\n" % (("f" * n,) * 2))
+    fam("hex-with-separators", (8, 16), lambda n: "int x = 0x1%s;\n" % ("'f" * n))
+    fam("binary-digits", (32, 64), lambda n: "int x = 0b%s;\n#if 0b%s\n#endif\n" % (("1" * n,) * 2))
+    fam("binary-with-separators", (32, 64), lambda n: "int x = 0b1%s;\n" % ("'1" * n))
+    fam("binary-bad-digit", (32,), lambda n: "int x = 0b%s2;\n" % ("1" * n))
+    fam("octal-digits", (11, 22, 64), lambda n: "int x = 0%s;\n#if 0%s\n#endif\n" % (("7" * n,) * 2))
+    fam("real-mantissa-digits", (17, 32, 128, 400), lambda n: "double x = %s.0;\n" % ("9" * max(n, 1)))
+    fam("real-fraction-digits", (17, 32, 128, 400), lambda n: "double x = 0.%s1;\n" % ("0" * n))
+    fam("real-exponent-digits", (3, 4, 32), lambda n: "double x = 1e%s;\ndouble y = 1e-%s;\n" % (("9" * max(n, 1),) * 2))
+    fam("real-exponent-value", (308, 324), lambda n: "double x = 1e%d;\ndouble y = 1e-%d;\ndouble z = 1.7976931348623157e%d;\n" % (min(n, 99999), min(n, 99999), min(n, 99999)))
+    fam("number-suffix", (3, 64), lambda n: "int x = 1%s;\ndouble y = 1.0%s;\n" % ("u" * n, "f" * n))
+    # literals
+    fam("string-literal", (64, 4096, 65536), lambda n: "const char *s = \"%s\";\n" % ("s" * n))
+    fam("char-literal", (4, 64), lambda n: "int c = '%s';\n" % ("c" * n))
+    fam("hex-escape-digits", (2, 8, 64), lambda n: "const char *s = \"\\x%s\";\nint c = '\\x%s';\n" % (("f" * n,) * 2))
+    fam("octal-escape-digits", (3, 64), lambda n: "const char *s = \"\\%s\";\n" % ("7" * max(n, 1)))
+    fam("escape-run", (64,), lambda n: "const char *s = \"%s\";\n" % ("\\\\" * n))
+    fam("raw-string-delimiter", (16,), lambda n: "const char *s = R\"%s(x)%s\";\n" % (("d" * n,) * 2))
+    fam("raw-string-body", (64, 4096), lambda n: "const char *s = R\"(%s)\";\n" % (")" * n))
+    fam("raw-string-delimiter-never-closed", (16,), lambda n: "const char *s = R\"%s(x)\";\n" % ("d" * max(n, 1)))
+    fam("string-prefix-literal", (64,), lambda n: "const wchar_t *s = L\"%s\";\nconst char *t = u8\"%s\";\n" % (("w" * n,) * 2))
+    fam("string-suffix", (64,), lambda n: "const char *s = \"a\"%s;\n" % ("_" + "s" * n))
+    # include names
+    fam("include-quote-name", (255, 4096), lambda n: "#include \"%s.h\"\nint x;\n" % ("f" * n))
+    fam("include-angle-name", (255, 4096), lambda n: "#include <%s.h>\nint x;\n" % ("f" * n))
+    fam("include-path-components", (255, 2048), lambda n: "#include \"%sx.h\"\nint x;\n" % ("d/" * n))
+    fam("has-include-name", (255, 4096), lambda n: "#if __has_include(\"%s.h\")\n#endif\nint x;\n" % ("f" * n))
+    # lines, comments, whitespace, depth below the known recursion limits
+    fam("line-of-spaces", (64, 4096), lambda n: "%s\nint x;\n" % (" " * n))
+    fam("line-comment", (64, 4096), lambda n: "//%s\nint x;\n" % ("c" * n))
+    fam("block-comment", (64, 4096), lambda n: "/*%s*/\nint x;\n" % ("c" * n))
+    fam("directive-continuations", (64,), lambda n: "#define X 1%s\nint x = X;\n" % ("\\\n" * n))
+    fam("error-message", (64, 4096), lambda n: "#error %s\n" % ("e" * n))
+    fam("warning-message", (64, 4096), lambda n: "#warning %s\nint x;\n" % ("w" * n))
+    fam("paren-depth", (50, 100), lambda n: "int x = %s1%s;\n" % ("(" * min(n, 400), ")" * min(n, 400)))
+    fam("template-depth", (10, 40), lambda n: "template<class T> struct A {};\n%sint%s v;\n" % ("A<" * min(n, 40), " >" * min(n, 40)))
+    fam("macro-chain-depth", (64, 250), lambda n: "".join("#define M%d M%d\n" % (i, i + 1) for i in range(min(n, 250))) + "#define M%d 1\nint x = M0;\n" % min(n, 250))
+    # diagnostics whose position is an empty / all-blank line: show_line
+    fam("blank-continuation-line-under-diagnostic", (15, 16, 64), lambda n: "#if defined(X \\\n%s\nint x;\n#endif\n" % (" " * n))
+    fam("blank-line-has-include-diagnostic", (16, 64), lambda n: "#if __has_include( \\\n%s\nint x;\n#endif\n" % (" " * n))
+    fam("blank-line-unclosed-quote-diagnostic", (16, 64), lambda n: "#if \"abc \\\n%s\nint x;\n#endif\n" % ("\t" * n))
+    # -D, .N, environment
+    fam("D-value", (64, 4096), lambda n: "v" * n, modes=("D",))
+    fam("D-name", (64, 4096), lambda n: "N" * max(n, 1), modes=("Dname",))
+    fam("N-command-word", (16, 64), lambda n: "w" * n, modes=("N",))
+    fam("N-type-argument", (64, 4096), lambda n: "T" * n, modes=("N",))
+    fam("SOURCE_DATE_EPOCH-digits", (10, 20, 64), lambda n: "9" * n, modes=("epoch",))
+    return L
+
+
+# ---------------------------------------------------------------------------------------
 def as_bytes(t):
     return t if isinstance(t, bytes) else t.encode("utf-8", "surrogateescape")
 
@@ -403,7 +507,7 @@ def as_arg(t):
 
 class Job:
     __slots__ = ("jid", "name", "mode", "tool", "text", "extra", "dir", "args", "req", "res", "classes", "unreadable", "nfiles",
-                 "role", "expect_err", "files")
+                 "role", "expect_err", "files", "env", "kind")
 
 
 def make_jobs(inputs, modes_for, work):
@@ -419,10 +523,21 @@ def make_jobs(inputs, modes_for, work):
             j.jid, j.name, j.mode, j.text, j.extra = len(jobs), name, mode, text, extra
             j.dir = os.path.join(work, "j%06d" % j.jid)
             j.req, j.unreadable, j.nfiles = [], False, 1
-            j.role, j.expect_err, j.files = {"pf": "command-line", "ig": "command-line", "inc": "quote-include",
-                                             "N": "command-file", "D": "-D definition"}[mode], False, None
+            j.env, j.kind = None, None
+            j.role, j.expect_err, j.files = {"pf": "command-line", "pfE": "command-line", "ig": "command-line", "inc": "quote-include",
+                                             "N": "command-file", "D": "-D definition", "Dname": "-D definition",
+                                             "epoch": "environment"}[mode], False, None
             if mode == "pf":
                 j.tool, j.args = "parse_file", ["t.h"]
+            elif mode == "pfE":           # the token printer (CPPToken::output_code)
+                j.tool, j.args = "parse_file", ["-E", "t.h"]
+            elif mode == "Dname":         # the text is the macro NAME of -D
+                j.tool = "parse_file"
+                j.args = ["-D", as_arg(text) + "=1", "-D", as_arg(text) + "(x)=x", "use.h"]
+            elif mode == "epoch":         # the text is the value of $SOURCE_DATE_EPOCH (atoi)
+                j.tool, j.req = "interrogate", ["oc", "od"]
+                j.args = ["-oc", "o.cxx", "-od", "o.in", "-module", "m", "-library", "l", "-python-native", "ok.h"]
+                j.env = {"SOURCE_DATE_EPOCH": as_arg(text)}
             elif mode == "ig":
                 j.tool, j.req = "interrogate", ["oc", "od"]
                 j.args = ["-oc", "o.cxx", "-od", "o.in", "-module", "m", "-library", "l", "-python-native", "t.h"]
@@ -449,8 +564,12 @@ def materialise(j):
         return
     for fn, content in j.extra.items():
         open(os.path.join(j.dir, fn), "wb").write(as_bytes(content))
-    if j.mode in ("pf", "ig"):
+    if j.mode in ("pf", "pfE", "ig"):
         open(os.path.join(j.dir, "t.h"), "wb").write(as_bytes(j.text))
+    elif j.mode == "epoch":
+        open(os.path.join(j.dir, "ok.h"), "w").write(OK_HEADER)
+    elif j.mode == "Dname":
+        open(os.path.join(j.dir, "use.h"), "w").write("int v;\n")
     elif j.mode == "inc":
         open(os.path.join(j.dir, "t.h"), "wb").write(as_bytes(j.text))
         open(os.path.join(j.dir, "top.h"), "w").write("#include \"t.h\"\n")
@@ -468,8 +587,10 @@ OUTFILE = {"oc": "o.cxx", "od": "o.in", "oh": "o.txt"}
 
 def execute(j, kind, scale=1):
     materialise(j)
+    kind = j.kind or kind
     tr = os.path.join(j.dir, "trace.ndjson")
     env = {"SOURCE_DATE_EPOCH": "1"}
+    env.update(j.env or {})
     if kind == "asan":
         env["ASAN_OPTIONS"] = "detect_leaks=0:abort_on_error=0:exitcode=97"
         env["UBSAN_OPTIONS"] = "print_stacktrace=0:halt_on_error=1:exitcode=98"
@@ -597,6 +718,7 @@ def role_jobs(work):
                 j.args = out + opts + srcs
                 j.unreadable, j.nfiles = False, len(srcs)
                 j.role, j.expect_err, j.classes = role, kind != "no-error", []
+                j.env, j.kind = None, None
                 j.dir = os.path.join(work, "role%04d" % len(jobs))
                 jobs.append(j)
     return jobs
@@ -618,8 +740,7 @@ def run_check(ctx):
     kind = "asan" if ctx.tier == "thorough" else "hooked"
     BUILD_KIND[0] = kind
     build.ensure("hooked")
-    if kind == "asan":
-        build.ensure("asan")
+    build.ensure("asan")          # quick tier: the length family is also run under the sanitizer build
     tier, work = ctx.tier, ctx.tmp
     phase, t0 = {}, time.time()
     # the fd limit bounds the depth of a self-including file (there is no include-depth limit in the code)
@@ -730,7 +851,24 @@ def _run(ctx, tier, kind, work, phase, t0):
     for j in roles:
         j.jid = len(jobs)
         jobs.append(j)
-    ctx.notes["inputs"] = dict(iflex_texts=len(irecs), iflex_inputs=len(if_inputs), role_runs=len(roles),
+    # the length family; in the quick tier its source-file runs are repeated under the sanitizer
+    # build (a one-byte overrun need not crash the plain build)
+    lens = length_inputs()
+    lmodes = {name: modes for name, text, modes in lens}
+    ljobs = make_jobs([(n, t, {}) for n, t, m in lens], lambda idx, name, text: lmodes[name], os.path.join(work, "l"))
+    if kind != "asan":
+        extra = make_jobs([(n, t, {}) for n, t, m in lens],
+                          lambda idx, name, text: [m for m in lmodes[name] if m in ("pf", "pfE", "D", "Dname", "N")], os.path.join(work, "la"))
+        for j in extra:
+            j.kind = "asan"
+            j.name += " [asan]"
+            j.classes = classes_of(as_text(j.text), j.mode, "asan")
+        ljobs += extra
+    for j in ljobs:
+        j.jid = len(jobs)
+        j.dir = os.path.join(work, "j%06d" % j.jid)
+        jobs.append(j)
+    ctx.notes["inputs"] = dict(length_inputs=len(lens), length_runs=len(ljobs), iflex_texts=len(irecs), iflex_inputs=len(if_inputs), role_runs=len(roles),
                                lexmodes_dumped=len(recs), lexmodes=len(lex_inputs), edge_cases=len(edges), runs=len(jobs))
     ctx.cov["rule"] = (
         "inputs = every LexModes state TLC keeps (one per VIEW value = mode path) rendered under its prelude + the fixed "
@@ -767,7 +905,7 @@ def _run(ctx, tier, kind, work, phase, t0):
         ctx.violation("%s as %s: %s [%s]" % (j.name[:80], j.mode, v[1], j.res["stderr"].strip().split("\n")[-1][:120]),
                       dict(name=j.name, mode=j.mode, tool=j.tool, role=j.role, argv=[a[:300] for a in j.args], input=as_text(j.text)[:2000],
                            input_len=len(j.text), files=(j.files if j.files is not None else sorted(j.extra)), observed={k: j.res[k] for k in ("rc", "signal", "timed_out", "present", "wall")},
-                           stderr=j.res["stderr"], build=kind),
+                           stderr=j.res["stderr"], build=j.kind or kind),
                       classes=j.classes)
     silent = [j for j in roles if not j.expect_err and (j.res["rc"] != 0 or j.res["nerr"])]
     if silent:
